@@ -53,7 +53,8 @@ def gen_case(rng, version=None, profile=None, keylen=None, mask="auto", valid_kb
     version = version or rng.choice("ABCD")
     profile = profile or rng.choice(["none", "none", "few", "few", "boundary", "many", "big"])
     if valid_kbpk:
-        kbpk = rng.randbytes(rng.choice(KBPK_SIZES[version]))
+        from harness import gens
+        kbpk = gens.key(rng, rng.choice(KBPK_SIZES[version]))
     else:
         kbpk = rng.randbytes(rng.choice([0, 1, 7, 8, 9, 15, 17, 23, 25, 31, 32, 33, 40]))
     alg = algorithm or rng.choice(["T", "D", "A", "R", "H", "E", "0", rng.choice(ALNUM)])
